@@ -1,8 +1,6 @@
 package main
 
 import (
-	"go/token"
-	"go/types"
 	"strings"
 
 	"golang.org/x/tools/go/ssa"
@@ -342,74 +340,6 @@ func runC16(e *Engine, r *Report) {
 			for _, s := range e.SitesIn(po, rmv) {
 				g1, _ := e.guardedOnAllPaths(s.(ssa.Instruction), reqBool("", e.callV(isOrphan), true))
 				r.check(g1, "GD-orphans", "processOrphans removes flagged directories only", e.ipos(s), "only orphan-flagged directories are removed through remove()", "remove() is reached for a directory that is not flagged as orphan")
-			}
-			// a complete (unflagged) snapshot directory is removed only when it is not the recorded one
-			if isSS := e.Func("(*dragonboat.snapshotter).isSnapshot"); isSS != nil {
-				rmAll := e.throughHelpers(func(c ssa.CallInstruction) bool { return isIfaceInvoke(c, "RemoveAll") })
-				k := 0
-				forEachInstr(po, func(in ssa.Instruction) {
-					c, ok := in.(*ssa.Call)
-					if !ok || !rmAll(in) {
-						return
-					}
-					if g, _ := e.guardedOnAllPaths(c, reqBool("", e.callV(isSS), true)); !g {
-						return // the orphan / zombie branches
-					}
-					k++
-					isBoolPhi := func(v ssa.Value) bool {
-						ph, ok := stripConv(v).(*ssa.Phi)
-						if !ok {
-							return false
-						}
-						bt, ok := ph.Type().Underlying().(*types.Basic)
-						if !ok || bt.Kind() != types.Bool {
-							return false
-						}
-						// the "no snapshot recorded" flag: a flag variable (all edges constant) that becomes
-						// true only behind a sentinel test of the lookup's error (errors.Is / ==)
-						viaSentinel := false
-						for i, ed := range ph.Edges {
-							c, isC := ed.(*ssa.Const)
-							if !isC {
-								return false
-							}
-							if cb, ok := isConstBool(c); ok && cb {
-								pred := ph.Block().Preds[i]
-								if len(pred.Instrs) == 0 {
-									return false
-								}
-								ok2 := false
-								for _, f := range FactsAt(pred.Instrs[len(pred.Instrs)-1]) {
-									if cl, isCall := f.V.(*ssa.Call); isCall && f.Pol {
-										if sc := cl.Call.StaticCallee(); sc != nil && sc.Name() == "Is" {
-											ok2 = true
-										}
-									}
-									if b, isB := f.V.(*ssa.BinOp); isB && f.Pol && b.Op == token.EQL && isErrorType(b.X.Type()) {
-										ok2 = true
-									}
-								}
-								if !ok2 {
-									return false
-								}
-								viaSentinel = true
-							}
-						}
-						return viaSentinel
-					}
-					r.guard("GD-orphans", "processOrphans removes a complete snapshot directory", c,
-						reqAny("no snapshot is recorded, or the directory's index differs from the recorded snapshot's",
-							reqBool("", isBoolPhi, true),
-							reqCmp("", "!=", func(v ssa.Value) bool {
-								// the directory's own index: computed, not a constant and not a snapshot record's index
-								v = stripConv(v)
-								if _, isC := v.(*ssa.Const); isC {
-									return false
-								}
-								return !fieldV(ssIndex)(v)
-							}, fieldV(ssIndex))))
-				})
-				r.floor("GD-orphans (complete directories)", k, 1)
 			}
 		}
 	}
